@@ -36,6 +36,11 @@ type Rule struct {
 	Pat    string `json:"pat"` // a p r
 	B      *Cond  `json:"b,omitempty"`
 	E      *Cond  `json:"e,omitempty"`
+	// a pattern expression that calls a function executing next ("n") / nextfile ("nf") when W holds, else returning the
+	// condition: RaiseAt "b" = the single / begin pattern, "e" = the end pattern of a range
+	Raise   string `json:"raise,omitempty"`
+	RaiseAt string `json:"raise_at,omitempty"`
+	W       *Cond  `json:"w,omitempty"`
 	NoBody bool   `json:"nobody,omitempty"`
 	Body   []Op   `json:"body,omitempty"`
 }
@@ -80,6 +85,14 @@ func condLean(c *Cond, b *strings.Builder) {
 	default:
 		panic("bad cond " + c.K)
 	}
+}
+
+func patCondLean(r Rule, at string, c *Cond, b *strings.Builder) {
+	if r.Raise != "" && r.RaiseAt == at {
+		b.WriteString("q " + r.Raise + " ")
+		condLean(r.W, b)
+	}
+	condLean(c, b)
 }
 
 func opsLean(ops []Op, b *strings.Builder) {
@@ -150,11 +163,11 @@ func (cs *Case) leanReq() string {
 			b.WriteString("a ")
 		case "p":
 			b.WriteString("p ")
-			condLean(r.B, &b)
+			patCondLean(r, "b", r.B, &b)
 		case "r":
 			b.WriteString("r ")
-			condLean(r.B, &b)
-			condLean(r.E, &b)
+			patCondLean(r, "b", r.B, &b)
+			patCondLean(r, "e", r.E, &b)
 		}
 		if r.NoBody {
 			b.WriteString("0 ")
@@ -223,6 +236,30 @@ func (g *awkGen) cond(c *Cond) string {
 		return fmt.Sprintf("(%s \"\") == %s", varNames[c.N], awkStr(c.S))
 	}
 	panic("bad cond")
+}
+
+// patCond renders a pattern expression; a raising one becomes a call of a function that executes next / nextfile
+func (g *awkGen) patCond(r Rule, at string, c *Cond) string {
+	if r.Raise == "" || r.RaiseAt != at {
+		return g.cond(c)
+	}
+	g.nfn++
+	name := fmt.Sprintf("pf%d", g.nfn)
+	stmt := "next"
+	if r.Raise == "nf" {
+		stmt = "nextfile"
+	}
+	switch g.pick(3) {
+	case 0:
+		g.funcs = append(g.funcs, fmt.Sprintf("function %s() {\n  if (%s) %s\n  return (%s)\n}\n", name, g.cond(r.W), stmt, g.cond(c)))
+	case 1: // the statement sits one call deeper and inside a loop
+		g.funcs = append(g.funcs, fmt.Sprintf("function %s(  k) {\n  for (k = 0; k < 2; k++) if (%s) %s_in()\n  return (%s)\n}\nfunction %s_in() {\n  %s\n}\n",
+			name, g.cond(r.W), name, g.cond(c), name, stmt))
+	default:
+		g.funcs = append(g.funcs, fmt.Sprintf("function %s(a) {\n  if (%s) { %s }\n  return (%s) ? a : 0\n}\n", name, g.cond(r.W), stmt, g.cond(c)))
+		return "1 + " + name + "(1) > 1"
+	}
+	return name + "()"
 }
 
 func (g *awkGen) source(f string) (pre, post string) {
@@ -350,9 +387,9 @@ func (cs *Case) awk(plain bool) string {
 	for _, r := range cs.Rules {
 		switch r.Pat {
 		case "p":
-			b.WriteString(g.cond(r.B) + " ")
+			b.WriteString(g.patCond(r, "b", r.B) + " ")
 		case "r":
-			b.WriteString(g.cond(r.B) + ", " + g.cond(r.E) + " ")
+			b.WriteString(g.patCond(r, "b", r.B) + ", " + g.patCond(r, "e", r.E) + " ")
 		}
 		if r.NoBody {
 			b.WriteString("\n")
